@@ -30,6 +30,7 @@ func init() {
 		Explain: "Decides relay selection structurally: the relay loop is reached only when relayFactor != 0 and the node knows at least relayFactor+1 members, and iterates over kRandomMembers(relayFactor, members, filter); the filter keeps a member only on edges establishing status alive, protocol >= 5 and name != local name; the selector appends only members the filter kept, whose name equals no already selected member (exit of the dedupe scan) and only while fewer than k were selected (so at most k, distinct, never self); each relayed copy goes to the selected member's own address and name.",
 		Run:     runC35,
 		Mutants: []Mutant{
+			{Name: "protocol-versions-only-on-first-join", File: "serf/serf.go", Func: "func (s *Serf) handleNodeJoin(", Old: "\tmember.ProtocolMax = n.PMax\n", New: "\tif oldStatus == StatusNone {\n\t\tmember.ProtocolMax = n.PMax\n\t}\n", Expect: "R4"},
 			{Name: "rename-locals", Equivalent: true, Regexp: true, File: "serf/query.go", Func: "func (s *Serf) relayResponse(", Old: `\b(localName|members|relayMembers)\b`, New: "${1}Renamed"},
 			{Name: "relay-to-self", File: "serf/query.go", Func: "func (s *Serf) relayResponse(", Old: "m.Status != StatusAlive || m.ProtocolMax < 5 || m.Name == localName", New: "m.Status != StatusAlive || m.ProtocolMax < 5 || (m.Name == localName && m.Port == 0)", Expect: "R2"},
 			{Name: "relay-to-failed", File: "serf/query.go", Func: "func (s *Serf) relayResponse(", Old: "m.Status != StatusAlive || m.ProtocolMax < 5 || m.Name == localName", New: "m.Status == StatusLeft || m.ProtocolMax < 5 || m.Name == localName", Expect: "R2"},
@@ -250,6 +251,32 @@ func runC35(c *an.Ctx) {
 	c.Rule("R1 relay loop behind relayFactor != 0 and len(members) >= relayFactor+1; iterates kRandomMembers(relayFactor, members, filter)")
 	c.Rule("R2 the filter keeps a member only on edges establishing Status == alive, ProtocolMax >= 5, Name != local name")
 	c.Rule("R3 selector: append only behind filter-kept, no-equal-name (dedupe scan exit) and len(result) < k")
+	c.Rule("R4 the ProtocolMax the filter reads is current: handleNodeJoin and handleNodeUpdate store the notification's PMax into the member on every path that has a member (a rejoin with another version is not left stale)")
+	for _, name := range []string{"handleNodeJoin", "handleNodeUpdate"} {
+		fn := sm(c, "R4", "Serf", name)
+		if fn == nil {
+			continue
+		}
+		isPM := func(in ssa.Instruction) bool {
+			st, ok := in.(*ssa.Store)
+			if !ok {
+				return false
+			}
+			_, f, okF := an.FieldOf(st.Addr)
+			return okF && f == "ProtocolMax" && an.Path(st.Val) == "$1.PMax"
+		}
+		skipOK := an.EdgesWhere(fn, func(f an.Cmp) bool {
+			if strings.Contains(f.L, "config.messageDropper(") && f.Op == "==" && f.R == "c:true" {
+				return true
+			}
+			return name == "handleNodeUpdate" && strings.HasPrefix(f.L, "$0.members[") && strings.HasSuffix(f.L, "#1") && f.Op == "==" && f.R == "c:false"
+		})
+		skip := an.ReachFrom(fn, nil, &an.Cut{Edges: skipOK, Instrs: isPM}, an.IsExit)
+		c.Add(skip == nil, "R4", name+":protocol-max-refreshed", fn, name+" stores the node's current PMax into the member on every path that has a member", "reach/cut must-pass")
+		if skip != nil {
+			c.Obs[len(c.Obs)-1].Desc += " — exit without it at " + c.P.InstrPos(skip)
+		}
+	}
 	rr := sm(c, "R1", "Serf", "relayResponse")
 	if rr == nil {
 		return
